@@ -29,6 +29,7 @@ import c19lib as L
 from c19lib import cps
 
 PROP = 'C19'
+TUPLE_CREDS = ('tuple', 'namedtuple', 'tuple_subclass')     # credential forms that are tuples (model: Creds.tuple)
 ITER_OPS = {'IterEnumerateInstances': ('OpenEnumerateInstances', 'PullInstancesWithPath', 'EnumerateInstances'),
             'IterEnumerateInstancePaths': ('OpenEnumerateInstancePaths', 'PullInstancePaths', 'EnumerateInstanceNames')}
 
@@ -321,7 +322,7 @@ def gen_case(rng, thorough):
     if rng.random() < 0.55:
         tcr = {'enabled': rng.random() < 0.85, 'first': rng.random() < 0.5}
     return {'pull': rng.choice([None, None, True, False]),
-            'creds': rng.choice(['tuple', 'tuple', 'tuple', 'none', 'list']),
+            'creds': rng.choice(['tuple', 'tuple', 'namedtuple', 'namedtuple', 'tuple_subclass', 'none', 'list']),
             'stats': rng.random() < 0.6, 'debug': rng.random() < 0.4, 'log': log, 'tcr': tcr, 'calls': calls}
 
 
@@ -383,6 +384,10 @@ def install_yaml_spy():
 def creds_of(kind):
     if kind == 'tuple':
         return (L.USER, L.PASSWORD)
+    if kind == 'namedtuple':
+        return L.Credentials(L.USER, L.PASSWORD)
+    if kind == 'tuple_subclass':
+        return L.CredsTuple((L.USER, L.PASSWORD))
     if kind == 'list':
         return [L.USER, L.PASSWORD]
     return None
@@ -624,7 +629,8 @@ def expanded_levels(log):
 
 
 def creds_text(kind):
-    if kind == 'tuple':
+    if kind in TUPLE_CREDS:
+        # every tuple (also a namedtuple / other subclass) must be elided like the documented plain tuple
         return '(%s, ...)' % L.afmt(L.USER)
     if kind == 'list':
         return '[%s, %s]' % (L.afmt(L.USER), L.afmt(L.PASSWORD))
@@ -644,14 +650,14 @@ def model_request(case, bare, obs):
     s = split_around(obs['str'], 'creds=' + ct)
     r = split_around(obs['repr'], 'creds=' + ct)
     if s is None or r is None:
-        return None
+        return 'creds-text-not-found'      # str()/repr() do not show the credentials the way the model says
     log, tcr = case['log'], case['tcr']
     at_add = ['LogOperationRecorder']
     if log and log['when'] == 'after' and tcr and tcr['first']:
         at_add = ['TestClientRecorder', 'LogOperationRecorder']
     rpost = re.sub(r"recorders=\[[^\]]*\]\)$", 'recorders=%s)' % L.afmt(at_add).replace('\\', '\\\\'), r[1])
     r = (r[0], rpost)
-    conn = {'creds': {'kind': case['creds'], 'user': cps(L.afmt(L.USER)), 'pw': cps(L.afmt(L.PASSWORD))},
+    conn = {'creds': {'kind': 'tuple' if case['creds'] in TUPLE_CREDS else case['creds'], 'user': cps(L.afmt(L.USER)), 'pw': cps(L.afmt(L.PASSWORD))},
             'strPre': cps(s[0] + 'creds='), 'strPost': cps(s[1]), 'reprPre': cps(r[0] + 'creds='), 'reprPost': cps(r[1]),
             'stats': case['stats'], 'debug': case['debug']}
     recs = []
@@ -1042,6 +1048,11 @@ def run_cases(run, cases):
     crashes = [r['crash'] for r in results if 'crash' in r]
     if crashes:
         raise RuntimeError('harness crashed on a case: ' + crashes[0])
+    for case, r in zip(cases, results):
+        if r['req'] == 'creds-text-not-found':
+            run.disagree(case, {'creds_text': creds_text(case['creds'])}, {'str/repr': 'expected text absent'},
+                         'credential text in str()/repr() of the connection')
+            r['req'] = None
     idx = [i for i, r in enumerate(results) if r['req'] is not None]
     answers = common.run_driver(PROP, [results[i]['req'] for i in idx]) if idx else []
     ans_by = dict(zip(idx, answers))
@@ -1081,7 +1092,7 @@ def run(run):
                 'yaml.dump representability; (c) cases = observer configuration (configure_logger api|http|all x '
                 'dest file|stderr|user-configured|None x detail all|paths|summary|None|int near payload boundaries and '
                 'inside multi-byte characters, before/after connection creation, repeated; TestClientRecorder on/off/'
-                'disabled, recorder order; stats; debug; creds tuple|list|none) x 1..3 calls of 24 operations (incl. OpenQueryInstances/PullInstances whose instances have no path, optional QueryResultClass) with '
+                'disabled, recorder order; stats; debug; creds plain tuple|namedtuple|other tuple subclass|list|none) x 1..3 calls of 24 operations (incl. OpenQueryInstances/PullInstances whose instances have no path, optional QueryResultClass) with '
                 'generated arguments x scripted responses (success with non-ASCII content, CIM error, ill-formed UTF-8, '
                 'parse errors, HTTP errors, bad content type, transport exceptions, WBEMServerResponseTime good/bad). '
                 'non-trivial = an observer produced at least one record; distinct = distinct case JSON')
